@@ -262,6 +262,9 @@ static void apply_op(const cdesc *d, int op, int p)
 static void apply_crl_op(const cdesc *d, int op, int p)
 {
     (void) d; cg_crl_spec c; const node *iss = &N[p - 1];
+    /* psCRL_Update keeps ONE CRL per issuer name: whatever the application loads later for the same issuer replaces the earlier CRL,
+     * authenticated or not (crl.c psCRL_Update / internalCRLmatch).  The ground truth follows the cache the application built. */
+    if (N[p].revoked_auth) { N[p].revoked_auth = 0; vf_stat("lenient:authenticated-crl-replaced-by-later-crl-same-issuer", 1); }
     switch (op) {
     case OP_REVOKED: cg_crl_for(&c, &iss->spec, iss->spec.key, NOW); cg_crl_revoke(&c, &N[p].spec); add_crl(&c, p - 1);
         if (gt_is_ca(iss) && (iss->spec.ku && (iss->spec.ku_bits & CG_KU_CRLSIGN))) N[p].revoked_auth = 1;   /* the library authenticates CRLs only against CAs with cRLSign */
